@@ -27,7 +27,7 @@ ASSUMPTIONS = [
     "the announced range of a region is [start, end] of the JSON region (origin-spanning: continuing past the record length); for "
     "build_area_rows alone it is derived from the region location in the same way",
 ]
-BOUNDS = {"quick": "6 slots, <= 3 areas, line and ring (with an origin-spanning gene)", "thorough": "6 slots <= 4 areas (reduced menu), 7 slots <= 3 areas"}
+BOUNDS = {"quick": "6 slots, <= 3 areas, line and ring (with an origin-spanning gene), + exactly 4 areas of the halved menu on the ring", "thorough": "6 slots <= 4 areas (full menu) line and ring, 7 slots ring <= 3 areas and exactly 4 of the halved menu"}
 REQUIRED_BUCKETS = {t: ["region:origin-spanning", "region:whole-record", "area:split-in-two", "area:shifted-past-length", "orfs:checked",
                         "orf:split-in-two", "rows:several-heights"] for t in ("quick", "thorough")}
 N_CHUNKS = 16
@@ -212,16 +212,23 @@ def build(nslots, circular, areas):
 
 def menu(nslots, circular, reduced):
     base = c06.area_menu(nslots, circular, reduced)
+    if reduced == "tight":
+        return base
     # a second product so that hybrids/interleaved candidates (drawn candidates) occur
     extra = [["P"] + spec for spec in P.protocluster_menu(nslots, circular, max_core=2, products=("q",), neighbourhoods=((1, 1),))]
     return base + (extra[::2] if reduced else extra)
 
 
 def shards(tier):
-    plans = [(6, False, 3, False), (6, True, 3, False)]
+    plans = [(6, False, 3, False), (6, True, 3, False), (6, True, 4, True), (6, True, 4, "tight")]
     if tier == "thorough":
-        plans += [(6, False, 4, True), (6, True, 4, True), (7, True, 3, False)]
-    return [[nslots, circ, k, reduced, chunk] for nslots, circ, k, reduced in plans for chunk in range(N_CHUNKS)]
+        plans = [(6, False, 4, False), (6, True, 4, False), (7, True, 3, False), (7, True, 4, True),
+                 (6, True, 4, "tight"), (6, False, 4, "tight"), (7, True, 4, "tight"), (8, True, 4, "tight")]
+    return [[nslots, circ, k, reduced, chunk] for nslots, circ, k, reduced in plans for chunk in range(_chunks(k, reduced))]
+
+
+def _chunks(k, reduced):
+    return N_CHUNKS * (8 if k == 4 and not reduced else 1)
 
 
 def run_shard(shard):
@@ -229,10 +236,10 @@ def run_shard(shard):
     res = Result()
     items = menu(nslots, circ, reduced)
     index = 0
-    for size in (range(1, k + 1) if not reduced else (k,)):
+    for size in (range(1, k + 1) if reduced is not True else (k,)):
         for combo in itertools.combinations(items, size):
             index += 1
-            if index % N_CHUNKS != chunk:
+            if index % _chunks(k, reduced) != chunk:
                 continue
             fails = check_config(nslots, circ, list(combo), res.buckets)
             if fails is None:
